@@ -11,7 +11,7 @@ ASSUMPTIONS = [
     'compute_params_curve/surface: symbolic increasing parameters for <= 4 points, fixed rational parameter families beyond',
     'consecutive data points are distinct (squared distance >= 1e-6)',
 ]
-OUTSIDE = ['more than 8 (quick) / 12 (thorough) data points per direction (the property goes to 40)', 'end-to-end runs with symbolic chord-length parameters (nested square roots feeding span search)',
+OUTSIDE = ['more than 8 (quick) / 16 (thorough) data points per direction (the property goes to 40)', 'end-to-end runs with symbolic chord-length parameters (nested square roots feeding span search)',
            'minimality beyond the normal equations (N^T N is positive definite)']
 BOUNDS = {'quick': 'params: 3-4 points 2-D/3-D, both parametrisations, surfaces 2x3/3x3; interpolate: symbolic parameters n=3,4 p<=3, rational families n<=8 p<=3, surfaces to 4x5; approximate: n<=8',
           'thorough': 'rational families n<=12, p<=5, surfaces to 6x5'}
@@ -226,9 +226,9 @@ def instances(tier):
         out.append(inst('knot_vector2 p%d n%d cp%d' % (p, n, ncp), h_knot_vector, timeout=900, p=p, n=n, ncp=ncp))
     for n, p in ((3, 1), (3, 2), (4, 2), (4, 3)):
         out.append(inst('interpolate_curve symbolic-params n%d p%d' % (n, p), h_interpolate_curve, timeout=2400, n=n, p=p, dim=2, family='symbolic'))
-    nmax = 8 if quick else 12
+    nmax = 8 if quick else 16
     for famname in ('uniform', 'geometric', 'clustered', 'chordlike'):
-        for n, p in ((4, 2), (5, 3), (6, 3), (8, 3), (7, 2)) + (() if quick else ((10, 3), (12, 4), (9, 5), (12, 3))):
+        for n, p in ((4, 2), (5, 3), (6, 3), (8, 3), (7, 2)) + (() if quick else ((10, 3), (12, 4), (9, 5), (12, 3), (14, 3), (16, 5), (16, 2), (13, 4))):
             if n <= nmax:
                 out.append(inst('interpolate_curve %s n%d p%d' % (famname, n, p), h_interpolate_curve, timeout=1800, n=n, p=p, dim=2 + n % 2, family=famname))
     for su, sv, pu, pv in ((3, 3, 2, 2), (4, 3, 2, 1), (3, 4, 1, 2), (4, 5, 3, 2)) + (() if quick else ((6, 5, 3, 3), (5, 4, 2, 3))):
